@@ -340,6 +340,7 @@ func replayPositionSource(p *Program, obs *obSet, fn *ssa.Function, dCall *ssa.C
 		}
 	}
 	input := unwrap(dCall.Common().Args[0])
+	replayCounterCounts(p, obs, fn, input)
 	bc, ok := input.(*ssa.Call)
 	if !ok {
 		obs.ok(k5, p.InstrPos(dCall), "the decoder does not read through a read-ahead buffer created in Replay (its input is "+input.String()+")")
@@ -490,6 +491,118 @@ func replayPositionSource(p *Program, obs *obSet, fn *ssa.Function, dCall *ssa.C
 	}
 }
 
+// replayCounterCounts: if the decoder's input is an object of a module type with its own Read method (a counting
+// wrapper) and Replay reads a field of that object (the position), then that Read must add to that very field
+// exactly the byte count its inner Read returned, and return the same count: otherwise the position is not the number
+// of bytes the decoder consumed (a counter that never moves makes every end of input look clean and the re-positioning
+// seek rewind to the start of the file).
+func replayCounterCounts(p *Program, obs *obSet, fn *ssa.Function, input ssa.Value) {
+	const k6 = "the byte counter the position is read from counts what its Read hands out, in (*persistentLog).Replay"
+	al, ok := input.(*ssa.Alloc)
+	if !ok {
+		return
+	}
+	pt, ok := al.Type().Underlying().(*types.Pointer)
+	if !ok {
+		return
+	}
+	named, ok := pt.Elem().(*types.Named)
+	if !ok || named.Obj().Pkg() == nil || !strings.HasPrefix(named.Obj().Pkg().Path(), ModulePath) {
+		return
+	}
+	read := p.Func("(*" + named.Obj().Name() + ").Read")
+	if read == nil {
+		return
+	}
+	// fields of the wrapper that Replay loads
+	used := map[*types.Var]string{}
+	if refs := al.Referrers(); refs != nil {
+		for _, r := range *refs {
+			fa, ok := r.(*ssa.FieldAddr)
+			if !ok || fa.Referrers() == nil {
+				continue
+			}
+			for _, rr := range *fa.Referrers() {
+				if u, ok := rr.(*ssa.UnOp); ok && u.Op == token.MUL {
+					fld := fieldOf(fa.X.Type(), fa.Field)
+					if isIntegerType(fld.Type()) {
+						used[fld] = p.InstrPos(u)
+					}
+				}
+			}
+		}
+	}
+	if len(used) == 0 {
+		return
+	}
+	// the inner read and its count
+	var inner *ssa.Call
+	for _, b := range read.Blocks {
+		for _, in := range b.Instrs {
+			if c, ok := in.(*ssa.Call); ok && c.Common().IsInvoke() && c.Common().Method.Name() == "Read" {
+				inner = c
+			}
+		}
+	}
+	for fld, at := range used {
+		switch {
+		case inner == nil:
+			obs.undecided(k6, at, "(*"+named.Obj().Name()+").Read does not call the Read of a wrapped reader; how field "+fld.Name()+" relates to the bytes consumed was not recognised")
+			continue
+		}
+		isN := func(v ssa.Value) bool {
+			v = stripConvert(v)
+			e, ok := v.(*ssa.Extract)
+			return ok && e.Tuple == ssa.Value(inner) && e.Index == 0
+		}
+		adds := false
+		for _, b := range read.Blocks {
+			for _, in := range b.Instrs {
+				st, ok := in.(*ssa.Store)
+				if !ok {
+					continue
+				}
+				fa, ok := st.Addr.(*ssa.FieldAddr)
+				if !ok || fieldOf(fa.X.Type(), fa.Field) != fld {
+					continue
+				}
+				bo, ok := st.Val.(*ssa.BinOp)
+				if !ok || bo.Op != token.ADD {
+					continue
+				}
+				isOld := func(v ssa.Value) bool {
+					u, ok := v.(*ssa.UnOp)
+					if !ok || u.Op != token.MUL {
+						return false
+					}
+					ofa, ok := u.X.(*ssa.FieldAddr)
+					return ok && fieldOf(ofa.X.Type(), ofa.Field) == fld
+				}
+				if (isOld(bo.X) && isN(bo.Y)) || (isOld(bo.Y) && isN(bo.X)) {
+					adds = true
+				}
+			}
+		}
+		returnsN := true
+		for _, b := range read.Blocks {
+			for _, in := range b.Instrs {
+				if ret, ok := in.(*ssa.Return); ok && len(ret.Results) == 2 && !isN(ret.Results[0]) {
+					returnsN = false
+				}
+			}
+		}
+		switch {
+		case !adds:
+			obs.fail(k6, at, "Replay takes the position of the last complete record from field "+fld.Name()+" of the "+named.Obj().Name()+" it decodes from, but (*"+named.Obj().Name()+").Read does not add the byte count returned by the wrapped reader to that field: "+
+				"the position does not follow the decoder, so a torn tail is mistaken for a clean end (or the file is cut / re-positioned at the wrong offset)", nil, "Read: "+p.Pos(read.Pos()))
+		case !returnsN:
+			obs.fail(k6, at, "(*"+named.Obj().Name()+").Read counts the bytes of the wrapped reader but returns a different count to the decoder", nil, "Read: "+p.Pos(read.Pos()))
+		default:
+			obs.ok(k6, at, "(*"+named.Obj().Name()+").Read adds the wrapped reader's byte count to "+fld.Name()+" and returns that count unchanged")
+		}
+	}
+}
+
 // sameBase: the two values are the same register, or loads of the same local variable (a parameter spilled
 // because a closure captures it).
 func sameBase(a, b ssa.Value) bool {
@@ -562,6 +675,28 @@ func walkRm(p *Program, obs *obSet, k *ssa.Function) {
 		st := v.St
 		if c := callNamed(in, "os.RemoveAll", "os.Remove"); c != nil && resolve(v.Fr, c.Common().Args[0]) == ssa.Value(pathParam) {
 			found = true
+			// the removal must be conditioned on the visited name carrying the temporary prefix
+			hasPrefix := false
+			v.Conds(func(fr *sframe, cond ssa.Value, truth bool) {
+				hc, ok := cond.(*ssa.Call)
+				if !ok || calleeName(hc.Common()) != "strings.HasPrefix" || len(hc.Common().Args) != 2 || !truth {
+					return
+				}
+				nc, _ := callOf(fr, hc.Common().Args[0], -1)
+				if nc == nil || !nc.Common().IsInvoke() || nc.Common().Method.Name() != "Name" || resolve(fr, nc.Common().Value) != ssa.Value(infoParam) {
+					return
+				}
+				if pre, ok := constStringOf(resolve(fr, hc.Common().Args[1])); ok && strings.HasPrefix(pre, "tmp") {
+					hasPrefix = true
+				}
+			})
+			kp := "only entries whose name has the temporary prefix are removed: " + siteKey(v.Fr, c)
+			if hasPrefix {
+				obs.ok(kp, p.InstrPos(c), "the removal is reached only where strings.HasPrefix(info.Name(), \"tmp…\") holds")
+			} else {
+				v.Note("%s: removal", p.InstrPos(c))
+				obs.fail(kp, p.InstrPos(c), "the visited path is removed on a path that has not established strings.HasPrefix(info.Name(), \"tmp…\"): published snapshots, the state file or the log are deleted at construction", v.Path())
+			}
 			return stAdd(stDel(st, "R"), fmt.Sprintf("R@%d", sites.id(v.Fr, c))), false
 		}
 		ret, ok := in.(*ssa.Return)
